@@ -374,10 +374,18 @@ def stmt_bounds(src, pos):
                 break
     close_j = match_close(toks, open_j)
     e = close_j
-    for j in range(idx, close_j):
-        if depths[j] == bd and toks[j].text == ';':
-            e = j + 1
-            break
+    blocklike = toks[s].kind == 'ident' and toks[s].text in ('for', 'while', 'loop')
+    if blocklike:
+        k = s + 1
+        while k < close_j and not (toks[k].text == '{' and depths[k] == bd):
+            k += 1
+        if k < close_j:
+            e = match_close(toks, k) + 1
+    else:
+        for j in range(idx, close_j):
+            if depths[j] == bd and toks[j].text == ';':
+                e = j + 1
+                break
     start_off = toks[s].s
     end_off = toks[e - 1].e if e > 0 else toks[e].s
     return start_off, end_off
